@@ -21,7 +21,10 @@ def scenario(args):
     mixed = isinstance(mode, str) and mode.startswith("mixed")     # static lengths first, then ack = True: pipe 0 is dynamic
     if mixed:
         mode = int(mode[5:])
-    cfg = dict(dyn=(mode == "dyn"), pl=(mode if mode != "dyn" else 32), pipe=pipe, ackpl=mixed, aw=rng.choice([3, 4, 5]),
+    p0static = mode == "dyn-p0static"        # receiver: pipe 0 static, the addressed pipe (1..5) dynamic
+    if p0static:
+        mode = "dyn"
+    cfg = dict(dyn=(mode == "dyn"), pl=(mode if mode != "dyn" else 32), pipe=pipe, ackpl=mixed, rx_p0_static=p0static, aw=rng.choice([3, 4, 5]),
                rate=rng.choice([1, 2, 250]), crc=rng.choice([0, 1, 2]), ch=rng.randrange(126), arc=rng.choice([0, 3, 15]),
                ard=rng.choice([250, 1500, 4000]))
     lp = link.LinkPair(cfg, tx_lite=tx_lite, rx_lite=rx_lite, tx_spidev=rng.random() < 0.5, rx_spidev=rng.random() < 0.5,
@@ -74,6 +77,10 @@ def jobs_for(chk, tx_lite=False, rx_lite=False):
             for bt in ("bytes", "bytearray"):
                 out.append((mode, pipe, bt, hash((chk.seed, str(mode), pipe, bt, tx_lite, rx_lite)) & 0x7FFFFFFF, lens,
                             tx_lite, rx_lite))
+    if not rx_lite:
+        for pipe in ((1, 5) if quick else (1, 2, 3, 4, 5)):
+            for bt in ("bytes", "bytearray"):
+                out.append(("dyn-p0static", pipe, bt, hash((chk.seed, "p0static", pipe, bt, tx_lite)) & 0x7FFFFFFF, lens, tx_lite, False))
     if not tx_lite and not rx_lite:
         for pl in ([5, 32] if quick else [1, 5, 16, 31, 32]):
             for bt in ("bytes", "bytearray"):
